@@ -363,6 +363,19 @@ pub fn check_case(door: Door, b: &[u8], case: &mut Case) {
                             }
                             (a, b2) => case.fail(format!("verdict-differs:{}:stop", api), format!("{}: struct stop error {:?}, slicing stop error {:?}", api, a, b2)),
                         }
+                        // the incomplete flag of the struct payload against the slicing result: IP payload flag where an IP
+                        // layer was decoded, else the flag of the last ether payload
+                        let s_inc = match (s.ip_payload(), s.ether_payload()) {
+                            (Some(ip), _) => ip.incomplete,
+                            (None, Some(e)) if !matches!(s.net, Some(LaxNetSlice::Arp(_))) => e.incomplete,
+                            _ => match s.link_exts.last() {
+                                Some(LaxLinkExtSlice::Macsec(m)) => matches!(&m.payload, LaxMacsecPayloadSlice::Modified { incomplete: true, .. }),
+                                _ => false,
+                            },
+                        };
+                        if super::c05::lax_payload_incomplete(&h.payload) != s_inc {
+                            case.fail(format!("incomplete-flag-differs:{}:{}", api, super::c05::payload_variant(&h.payload)), format!("{}: struct payload incomplete={} vs slicing result {}", api, super::c05::lax_payload_incomplete(&h.payload), s_inc));
+                        }
                         if let (LaxPayloadSlice::Ip(a), Some(sp)) = (&h.payload, s.ip_payload()) {
                             if a.ip_number != sp.ip_number || a.fragmented != sp.fragmented || a.len_source != sp.len_source || a.incomplete != sp.incomplete {
                                 case.fail(format!("ip-payload-meta-differs:{}", api), format!("{}: struct {:?} vs slice {:?}", api, (a.ip_number, a.fragmented, a.len_source, a.incomplete), (sp.ip_number, sp.fragmented, sp.len_source, sp.incomplete)));
